@@ -530,6 +530,12 @@ class Trial:
 
                 def on_grid():
                     z_ref = self.spec["z_base"] + rng.uniform(2, 14) * jd0
+                    c = rng.random()
+                    if c < 0.06:
+                        return rng.choice([0.0, -0.0])
+                    if c < 0.14:
+                        # on the grid only up to rounding, the way a user would type it
+                        return float("%.10g" % (round(z_ref / k["grid_mm"]) * k["grid_mm"]))
                     return round(z_ref / k["grid_mm"]) * k["grid_mm"]
 
                 mode = rng.choices(["none", "rise", "recession", "both_same", "both"], weights=[4, 2, 2, 1, 1])[0]
